@@ -2,6 +2,7 @@
 import itertools
 import random
 from .common import *
+import re
 from .. import witness, corpusgen, facts as factsmod
 from . import c05
 
@@ -73,6 +74,14 @@ def gen_enum_programs(tier, seed):
     for k in (0, 255, 256, 300):
         cases.append([{'skip': False, 'attr': k, 'discr': None}])
         cases.append([{'skip': True, 'attr': None, 'discr': None}, {'skip': False, 'attr': k, 'discr': None}])
+    # implicit positions count the non-skipped variants only — in the generated code and in the compile-time check of BOTH
+    # derives: skipped variants in front of / between implicit ones, followed by an attribute index on either side of the
+    # filtered and the unfiltered position
+    S_ = {'skip': True, 'attr': None, 'discr': None}
+    I_ = {'skip': False, 'attr': None, 'discr': None}
+    for pre in ([S_, I_], [S_, S_, I_], [S_, I_, I_], [I_, S_, I_]):
+        for k in range(0, len(pre) + 1):
+            cases.append([dict(v) for v in pre] + [{'skip': False, 'attr': k, 'discr': None}])
     # systematic: two variants, every pair of (source, k) x (source, k); plus a skipped collider
     srcs = ['implicit', 'attr', 'discr']
     for sa, sb in itertools.product(srcs, srcs):
@@ -122,7 +131,7 @@ def gen_enum_programs(tier, seed):
         progs.append({'name': 'enum_%03d' % len(progs), 'kind': 'enum-index', 'variants': vs, 'expect': verdict(vs), 'body': enum_src('E', vs)})
     if tier == 'quick':
         # keep the systematic part, cap the total
-        progs = progs[:78]
+        progs = progs[:96]
     return progs
 
 
@@ -195,7 +204,37 @@ def gen_attr_programs():
     return progs
 
 
+RESERVED = re.compile(r'^__codec_\w+_edqy$|^__Codec\w+Edqy$')
+
+
+def gen_hygiene_programs(fx):
+    """W17.4: the derives splice user expressions (explicit discriminants) into generated code.  Every value item the
+    generated code of the corpus declares (read off the corpus facts: constants / functions inside derive-generated blocks),
+    unless it follows the reserved mangling `__codec_*_edqy`, is used as the name of a user constant in a discriminant: the
+    definition must still compile, and the index check must still see the user's value"""
+    names = set()
+    for f in fx.fns:
+        if f['kind'] not in ('Const', 'Fn', 'Static'):
+            continue
+        comps = f['path'].split('::')
+        if '_' not in comps[:-1]:
+            continue
+        nm = comps[-1]
+        if not re.match(r'^[A-Za-z_][A-Za-z0-9_]*$', nm) or nm == '_' or RESERVED.match(nm):
+            continue
+        names.add(nm)
+    progs = []
+    hdr = '#[derive(Encode, Decode)]\n#[codec(crate = ::parity_scale_codec)]\n'
+    for nm in sorted(names):
+        progs.append({'name': 'hyg_ok_' + nm, 'kind': 'hygiene', 'expect': 'accept',
+                      'body': 'pub const %s: isize = 7;\n%spub enum E { A = %s, #[codec(index = 2)] B = 9 }\n' % (nm, hdr, nm)})
+        progs.append({'name': 'hyg_dup_' + nm, 'kind': 'hygiene', 'expect': 'reject',
+                      'body': 'pub const %s: isize = 3;\n%spub enum E { A = %s, #[codec(index = 3)] B = 9 }\n' % (nm, hdr, nm)})
+    return progs, sorted(names)
+
+
 def run(cx, out):
+    out.rule('W17.4', 'hygiene: a user constant named like any item the generated code declares is still the one a discriminant refers to')
     out.rule('W17.1', 'enum index programs: verdict of the front end == independent index rule; errors located in the definition')
     out.rule('W17.2', 'variant-count, attribute-conflict, union, CompactAs-shape programs and their twins')
     out.rule('W17.3', 'type-level witnesses: DecodeFinished cannot be forged; marker traits are enforced')
@@ -207,12 +246,14 @@ def run(cx, out):
     except _fm.BuildError as e:
         out.fail('W17.2', 'derive corpus compiles', 'valid input is rejected: a definition of the derive corpus no longer compiles: %s' % c05._first_error(str(e)), 'corpus')
         return
-    progs = gen_enum_programs(cx.tier, cx.seed) + gen_count_programs() + gen_attr_programs()
+    hyg, hyg_names = gen_hygiene_programs(fx)
+    out.floor('W17.4', 'value items declared by generated code (names probed)', len(hyg_names), 5)
+    progs = gen_enum_programs(cx.tier, cx.seed) + gen_count_programs() + gen_attr_programs() + hyg
     witness.run_programs(progs, cx.tier)
     out.units.add('witness programs (rustc --emit=metadata) against artefacts of the current tree')
     n_rej = n_acc = 0
     for p in progs:
-        rule = {'enum-index': 'W17.1', 'decode-finished': 'W17.3', 'marker': 'W17.3'}.get(p['kind'], 'W17.2')
+        rule = {'enum-index': 'W17.1', 'decode-finished': 'W17.3', 'marker': 'W17.3', 'hygiene': 'W17.4'}.get(p['kind'], 'W17.2')
         errs = p['errors']
         key = '%s (%s)' % (p['name'], p['kind'])
         if p['expect'] == 'accept':
